@@ -84,7 +84,7 @@ func strCols(names ...string) []col {
 func (s *Session) Exec(sql string, args []interface{}, prepared bool) (rs []result, drop bool) {
 	e := s.e
 	e.mu.Lock()
-	je := &JournalEntry{Seq: e.nextSeq(), Conn: s.id, User: s.user, Class: s.class, SQL: sql, Args: args, Prepared: prepared, InTxBefore: s.inTx()}
+	je := &JournalEntry{Seq: e.nextSeq(), Conn: s.id, User: s.user, Class: s.class, SQL: sql, Args: args, Prepared: prepared, InTxBefore: s.inTx(), Kind: classify(sql)}
 	e.Journal = append(e.Journal, je)
 	inj := e.Inject
 	e.mu.Unlock()
